@@ -20,6 +20,7 @@ type c16NativeCase struct {
 	customKind        int    // 0 none, 1 absolute --path, 2 relative --path
 	baseState         int    // as in the symbolic loop: 0 absent, 1 dir, 2 file, 4..6 prior installation
 	umask             string // "" (inherited, 022) or an octal umask the installer process runs under
+	xdg               bool   // XDG_*_HOME set to directories unrelated to $HOME
 }
 
 // snapshotTree lists every entry under root as "path mode sha" (directories: "path/ mode").
@@ -116,6 +117,13 @@ func runC16Native(c *Ctx, repo, scratch, srcRoot string, tree *embTree, cases []
 		}
 		cmd.Dir = work
 		cmd.Env = []string{"HOME=" + home, "PATH=/usr/bin:/bin", "PWD=" + work}
+		if cs.xdg {
+			// a user who relocated the XDG base directories: the documented locations do not
+			// mention them, so they must have no influence
+			for _, v := range []string{"CONFIG", "DATA", "STATE", "CACHE"} {
+				cmd.Env = append(cmd.Env, "XDG_"+v+"_HOME="+filepath.Join(root, "xdg", strings.ToLower(v)))
+			}
+		}
 		outB, runErr := cmd.CombinedOutput()
 		out := string(outB)
 		after := snapshotTree(root)
@@ -123,6 +131,9 @@ func runC16Native(c *Ctx, repo, scratch, srcRoot string, tree *embTree, cases []
 		caseName := fmt.Sprintf("native custom-kind=%d user=%v base-state=%d", cs.customKind, cs.user, cs.baseState)
 		if cs.umask != "" {
 			caseName += " umask=" + cs.umask
+		}
+		if cs.xdg {
+			caseName += " XDG_*_HOME set"
 		}
 		art := map[string]any{"args": args, "cwd": "<root>/work/proj", "home": "<root>/home/u", "output": strings.ReplaceAll(out, root, "<root>"), "after": after}
 		if cs.baseState == 2 {
